@@ -122,6 +122,8 @@ def h_failing_method(shape, rid, arg):
             return 3
         if second[0] != 200 or not isinstance(second[1], dict) or second[1].get("result") != [arg]:
             return 4  # the next request is not served
+        if len(second[1]) != 3 or second[1].get("jsonrpc") != "2.0" or second[1].get("id") != rid:
+            return 8  # ... or not in the form of that very request (state left behind by the previous one)
         if shape["form"] == "notify":
             return PASS + 2 if first[0] == 200 and first[1] is None else 5
         reply = first[1]
